@@ -240,6 +240,54 @@ func extractC21(repo string) (string, error) {
 	last, _ := m.Body.List[len(m.Body.List)-1].(*ast.ReturnStmt)
 	okTail := last != nil && len(last.Results) == 1 && strings.HasPrefix(exprText(last.Results[0]), "routing.HashSlotForKey("+key+",")
 	fmt.Fprintf(&b, "/-- Node.HashSlotForKey: apart from the nil-receiver guard every return delegates to routing.HashSlotForKey(key, <count>) -/\ndef nodeDelegatesToRouter : Bool := %v\n\n", okTail && deleg >= 1 && other == 0 && (zero == 0 || (zero == 1 && nilGuard)))
+	// 5. every definition of a variable named hashSlot in the routing package's table.go / router.go
+	b.WriteString("/-- (function, right-hand side) of every definition/assignment of a variable named `hashSlot` in pkg/cluster/routing/{table,router}.go, in source order; `var` = a declaration without value -/\ndef routingHashSlotSites : List (String × String) := [\n")
+	first := true
+	for _, rel := range []string{"pkg/cluster/routing/router.go", "pkg/cluster/routing/table.go"} {
+		_, f, err := parseFile(repo, rel)
+		if err != nil {
+			return "", err
+		}
+		for _, d := range f.Decls {
+			fd, ok := d.(*ast.FuncDecl)
+			if !ok || fd.Body == nil {
+				continue
+			}
+			ast.Inspect(fd.Body, func(n ast.Node) bool {
+				emit := func(rhs string) {
+					if !first {
+						b.WriteString(",\n")
+					}
+					first = false
+					fmt.Fprintf(&b, "  (%s, %s)", leanStr(fd.Name.Name), leanStr(rhs))
+				}
+				switch x := n.(type) {
+				case *ast.AssignStmt:
+					for i, l := range x.Lhs {
+						if id, ok := l.(*ast.Ident); ok && id.Name == "hashSlot" {
+							if len(x.Rhs) == len(x.Lhs) {
+								emit(exprText(x.Rhs[i]))
+							} else if len(x.Rhs) == 1 {
+								emit(exprText(x.Rhs[0]))
+							}
+						}
+					}
+				case *ast.ValueSpec:
+					for i, nm := range x.Names {
+						if nm.Name == "hashSlot" {
+							if i < len(x.Values) {
+								emit(exprText(x.Values[i]))
+							} else {
+								emit("var")
+							}
+						}
+					}
+				}
+				return true
+			})
+		}
+	}
+	b.WriteString("\n]\n\n")
 	b.WriteString("end WK.Gen.C21\n")
 	return b.String(), nil
 }
